@@ -31,9 +31,17 @@ def run_one(m, base):
         subprocess.run(["rsync", "-a", "--exclude", ".git", base + "/", repo + "/"], check=True)
         path = os.path.join(repo, m["file"])
         s = open(path).read()
-        if m["old"] not in s:
-            return m, "STALE", "pattern not found in " + m["file"]
-        open(path, "w").write(s.replace(m["old"], m["new"], 1))
+        if isinstance(m["old"], list):
+            # several replacements in one file (renames): old and new are parallel lists
+            for o, n in zip(m["old"], m["new"]):
+                if o not in s:
+                    return m, "STALE", "pattern not found in " + m["file"]
+                s = s.replace(o, n, 1)
+            open(path, "w").write(s)
+        else:
+            if m["old"] not in s:
+                return m, "STALE", "pattern not found in " + m["file"]
+            open(path, "w").write(s.replace(m["old"], m["new"], 1))
         b = subprocess.run(["go", "build", "./..."], cwd=repo, env=ENV, capture_output=True, text=True)
         if b.returncode != 0:
             return m, "NOCOMPILE", b.stderr[-400:]
